@@ -239,7 +239,11 @@ def _run_harness(base, h, ov, env, logdir, tier, group, keep):
         hr.output_tail = "\n".join(keep_lines)[-3000:] + "\n...\n" + txt[-1500:]
     d = hr.__dict__
     if hr.status == "failure":
-        d["playback"] = concrete_playback(base, h, ov, env, logdir)
+        if pr_["stubs"]:
+            # concrete playback runs the harness natively WITHOUT stubs: its outcome says nothing here
+            d["playback"] = {"reproduced": False, "values": "", "playback_output": "not replayed natively: the harness uses stubs (" + "; ".join(x.strip() for x in pr_["stubs"]) + ") which concrete playback does not apply; CBMC's trace is in the log"}
+        else:
+            d["playback"] = concrete_playback(base, h, ov, env, logdir)
     if keep or hr.status != "success":
         dst = "/verif/replays/logs"
         os.makedirs(dst, exist_ok=True)
